@@ -102,7 +102,7 @@ class Sandbox:
         os.mkdir(self.cwd)
         os.mkdir(self.tmp)
         for name, data in (files or {}).items():
-            with open(os.path.join(self.cwd, name), "wb") as f:
+            with open(os.path.join(self.cwd, name), "wb") as f:  # name may carry surrogate escapes (non-UTF-8 bytes)
                 f.write(data)
         self.before = self.listing(self.cwd)
 
